@@ -285,6 +285,7 @@ func RunFromEnv(t *testing.T) {
 	} else {
 		env.Corpus = corpus.Builtin()
 	}
+	env.Corpus = append(ShortDocs(), env.Corpus...)
 	if env.Replay != "" {
 		b, err := os.ReadFile(env.Replay)
 		if err != nil {
@@ -333,5 +334,25 @@ func RunFromEnv(t *testing.T) {
 		}
 	} else {
 		fmt.Println(string(jb))
+	}
+}
+
+// ShortDocs are prepended to the corpus: inputs of at most 10 bytes for which every
+// partition into chunks is enumerated, and inputs for the stub minifiers. Index 0 is the
+// simplest document, which is what a shrunk tape converges on.
+func ShortDocs() []corpus.Doc {
+	mk := func(mt, s string) corpus.Doc {
+		return corpus.Doc{MT: mt, Name: "short/" + s, Src: "builtin", Data: []byte(s)}
+	}
+	return []corpus.Doc{
+		mk("text/html", "<p>a </p>"), mk("text/html", "<b> x</b>y"),
+		mk("text/css", "a{b:c ;}"), mk("text/css", "a{b: 0px}"),
+		mk("application/javascript", "a = 1 + 2"), mk("application/javascript", "var a= b;"),
+		mk("application/json", "[1, 2.0 ]"), mk("application/json", `{"a" : 1}`),
+		mk("image/svg+xml", "<svg> </svg>"), mk("image/svg+xml", "<svg><g/> "),
+		mk("text/xml", "<a> b </a>"), mk("text/xml", "<a b = 'c'/>"),
+		mk(MTStream, "streamed"), mk(MTStream, "hello streaming world, chunk by chunk, piece by piece"),
+		mk(MTFail, "fails in the middle"),
+		mk("application/javascript", "var x = ;"),
 	}
 }
